@@ -31,6 +31,7 @@ WEAK = {
     "RotateDropsBuf": ("C15_weak_RotateDropsBuf.cfg", {"AckedDurable", "AckedReadable", "PruneWholeOldest"}),
     "DecoderAcceptsBadCRC": ("C15_weak_DecoderAcceptsBadCRC.cfg", {"NoInvented"}),
     "PruneNewest": ("C15_weak_PruneNewest.cfg", {"PruneWholeOldest"}),
+    "RecordInTwoGroupWrites": ("C15_weak_RecordInTwoGroupWrites.cfg", {"AckedReadable", "SearchExact", "SecondRestartSame", "PruneWholeOldest", "AckedDurable"}),
     "IndexWidth3Only": ("C15_weak_IndexWidth3Only.cfg", {"AckedReadable", "SearchExact", "PruneWholeOldest", "AckedDurable"}),
 }
 
@@ -143,6 +144,16 @@ def library(quick):
             [R, W(), W(big=True), O, S("Crash", j=0, tk=9, keep=-1), R, O, WS(), O]},
         {"name": "lib-big-part", "headLimit": 0, "totalLimit": 0, "steps":
             [R, W(), W(big=True), S("Crash", j=1, tk=20, keep=-1), R, O, WS(), S("Stop"), R, O]},
+        # the group's ticker goroutine rotates right after the FIRST group write of a record (counterexample of
+        # Weak_RecordInTwoGroupWrites: WriteSyncBegin, CheckHead, WriteEnd); on the real encoder that is the whole record
+        {"name": "lib-rotate-inside-write-1", "headLimit": 1, "totalLimit": 0, "steps":
+            [R, WS(), S("WriteRot", kind="in", sync=True, k=1), WS(), W("eh"), S("Flush"), O, S("Stop"), R, O, WS(), O]},
+        {"name": "lib-rotate-inside-write-2", "headLimit": 1, "totalLimit": 0, "steps":
+            [R, S("WriteRot", kind="rs", k=1), S("WriteRot", kind="in", k=1), S("FlushHalf"), S("WriteRot", kind="eh", sync=True, k=1),
+             O, S("CheckHead"), WS(), O, S("Stop"), R, O]},
+        {"name": "lib-rotate-inside-write-3", "headLimit": SMALL_HEAD, "totalLimit": SMALL_TOTAL, "steps":
+            [R, WS(), WS(), S("WriteRot", kind="in", sync=True, k=1), WS(), W("eh"), S("Flush"), S("CheckTotal"), O,
+             S("Crash", j=0, tk=0, keep=-1), R, O, S("WriteRot", kind="in", k=1), S("Flush"), O]},
         # damaged byte in a rotated file in front of the unfinished height
         {"name": "lib-corrupt-rotated", "headLimit": SMALL_HEAD, "totalLimit": 0, "steps":
             [R, WS(), WS(), S("CheckHead"), WS(), S("Crash", j=0, tk=0, keep=-1), S("Corrupt", file=0, pos=2, cls="len"), R, O]},
@@ -598,7 +609,10 @@ def replay(ctx, path):
         steps = []
         for r in prefix[1:]:
             ev = r["ev"]
-            if ev in ("Write", "WriteSync"):
+            if ev in ("Write", "WriteSync") and r.get("rot", 0) > 0:
+                steps.append({"op": "WriteRot", "kind": r["rec"]["kind"], "big": r["rec"]["size"] > 20000,
+                              "sync": ev == "WriteSync", "k": r["rot"]})
+            elif ev in ("Write", "WriteSync"):
                 steps.append({"op": ev, "kind": r["rec"]["kind"], "big": r["rec"]["size"] > 20000})
             elif ev == "FlushAndSync":
                 steps.append({"op": "Flush"})
